@@ -4,6 +4,6 @@ CONSTANTS
   Late = {3}
   NReq = 1
   Interrupts = FALSE
-  FuseFdEdge = FALSE
-  UmountWaits = FALSE
+  Mut = "none"
+  UmountWaits = TRUE
 INVARIANTS TypeOK DeliveredOnce BufferIsRequest ExitWins NoneJustified NoLostWake NoLostReadiness ResultsAllowed NothingLost
